@@ -4,6 +4,7 @@
 //   int <seed> <min> <max> <n>   n calls of uniform_int(min,max)       (`assert` if the library aborts)
 //   inj <min> <max> <k> <raw>*   k calls of uniform_int on a *planted* raw stream (state loaded through operator>>)
 //   injreal <min> <max> <k> <raw>*
+//   realx <seed> <min> <max> <n> as `real` with min/max given as hexfloats (any double)
 //   real <seed> <min> <max> <n>  n calls of uniform_real(min,max); min/max are rationals p/q exactly representable
 #include <xbt/random.hpp>
 #include <cstdio>
@@ -96,6 +97,17 @@ int main()
       in >> seed >> mn >> mx >> n;
       simgrid::xbt::random::XbtRandom r(seed);
       double a = parse_rat(mn), b = parse_rat(mx);
+      char buf[64];
+      for (int i = 0; i < n; i++) {
+        snprintf(buf, sizeof buf, " %a", r.uniform_real(a, b));
+        out << buf;
+      }
+    } else if (kind == "realx") { // realx <seed> <min-hexfloat> <max-hexfloat> <n> : arbitrary doubles (degenerate / few-ulp intervals)
+      int seed, n;
+      std::string mn, mx;
+      in >> seed >> mn >> mx >> n;
+      simgrid::xbt::random::XbtRandom r(seed);
+      double a = strtod(mn.c_str(), nullptr), b = strtod(mx.c_str(), nullptr);
       char buf[64];
       for (int i = 0; i < n; i++) {
         snprintf(buf, sizeof buf, " %a", r.uniform_real(a, b));
